@@ -23,7 +23,9 @@ Classes ==
     range     |-> {"absent", "valid", "reversed", "huge"},
     has       |-> {"absent", "valid", "bad_field", "bad_stopby", "stopby_rule", "field_on_follows", "empty_object"},
     matches   |-> {"absent", "undefined", "local_ok", "self_cycle", "mutual_cycle", "cycle_via_relation",
-                   "cycle_via_sibling_key", "cycle_all_and_any", "cycle_via_ofrule"},
+                   "cycle_via_sibling_key", "cycle_all_and_any", "cycle_via_ofrule",
+                   \* the document read as a GLOBAL utility file: its local utils refer back to its own id
+                   "global_self_via_local_utils"},
     cons      |-> {"absent", "valid", "sigil_key", "lowercase_key", "wrong_type", "undefined_key"},
     transform |-> {"absent", "substring", "empty_source", "no_sigil_source", "lone_sigil_source", "multibyte_source",
                    "bad_replace_regex", "bad_case", "undefined_rewriter", "huge_index", "self_cycle", "unknown_kind",
@@ -33,7 +35,9 @@ Classes ==
     fix       |-> {"absent", "string", "object", "expand_bad_rule", "number_type", "undefined_var", "sigils_only"},
     rewriters |-> {"absent", "valid", "duplicate_ids", "no_fix", "recursive", "clash_with_util",
                    \* rewriters used by a rewrite transformation whose fixes widen the edit beyond the rewritten text / overlap
-                   "expand_start_outside", "expand_end_outside", "expand_both_joined", "used_overlapping"},
+                   "expand_start_outside", "expand_end_outside", "expand_both_joined", "used_overlapping",
+                   \* a rewriter that rewrites the very node it matched with itself
+                   "self_on_same_node"},
     severity  |-> {"default", "off", "invalid", "error"},
     globs     |-> {"absent", "valid", "invalid_glob", "wrong_type"},
     ident     |-> {"present", "missing", "empty", "duplicate_in_file"},
@@ -61,5 +65,21 @@ Next == UNCHANGED doc
 Spec == Init /\ [][Next]_doc
 
 WellTyped == \A f \in Fields : doc[f] \in Classes[f]
+
+\* ---- project configuration (sgconfig.yml) -----------------------------------
+CfgClasses ==
+  [ ruleDirs     |-> {"valid", "empty", "missing_key", "nonexistent", "string_type", "two_dirs"},
+    utilDirs     |-> {"absent", "valid", "empty", "nonexistent", "string_type"},
+    testConfigs  |-> {"absent", "valid", "empty", "no_testdir", "snapshot_dir", "nonexistent_dir"},
+    languageGlobs |-> {"absent", "valid", "empty", "unknown_language", "string_type", "narrow"},
+    languageInjections |-> {"absent", "valid", "empty", "unknown_host", "bad_rule", "no_injected"},
+    customLanguages |-> {"absent", "empty", "missing_library"},
+    snapshots    |-> {"none", "orphan", "garbage"} ]        \* what lies in the snapshot directory before `test -U`
+CfgDefault == [ ruleDirs |-> "valid", utilDirs |-> "absent", testConfigs |-> "valid", languageGlobs |-> "absent",
+                languageInjections |-> "absent", customLanguages |-> "absent", snapshots |-> "none" ]
+CfgFields == DOMAIN CfgClasses
+CfgSingles == UNION { { [CfgDefault EXCEPT ![f] = c] : c \in CfgClasses[f] } : f \in CfgFields }
+CfgPairs == UNION { UNION { { [CfgDefault EXCEPT ![f] = c, ![g] = e] : c \in CfgClasses[f], e \in CfgClasses[g] } : g \in CfgFields \ {f} } : f \in CfgFields }
+CfgDocs == {CfgDefault} \cup CfgSingles \cup CfgPairs
 Bounded == Deviations(doc) <= MaxDeviations
 =============================================================================
